@@ -215,6 +215,24 @@ func suiteHash(c *ctx) {
 				addEdit("retype-parameters", e)
 			}
 		}
+		if dialect == "mysql" { // the same base type and size with a type attribute (seeded change C07-i)
+			e := s.clone()
+			done := false
+			for _, t := range e.Tables {
+				for ci := range t.Cols {
+					switch t.Cols[ci].Typ {
+					case "int(11)", "bigint(20)", "smallint(6)", "tinyint(4)":
+						if !done && len(t.Cols[ci].Opts) == 0 {
+							t.Cols[ci].Typ += " UNSIGNED" // as FieldType.String() prints it
+							done = true
+						}
+					}
+				}
+			}
+			if done {
+				addEdit("retype-unsigned", e)
+			}
+		}
 		{
 			e := s.clone()
 			t := e.Tables[c.rng.Intn(len(e.Tables))]
